@@ -559,6 +559,14 @@ func runConfigHistory(r *Run, prop string) {
 	g := NewRng(r.Seed, "cfg", prop)
 	w := NewWorld(r, defaultNetCfg(g))
 	defer w.Close()
+	if yg := NewRng(r.Seed, "cfg-yield"); yg.Chance(50) {
+		// seeded yields at the lock sites of oxia's packages: config changes, elections and the
+		// balancer all read-modify-write the same status record
+		w.SitePct = yg.Range(10, 60)
+		w.YieldPct = yg.Range(5, 40)
+		w.YieldMax = time.Duration(yg.Range(50, 2000)) * time.Microsecond
+		r.Knobs["yield"] = fmt.Sprintf("%d/%d/%v", w.SitePct, w.YieldPct, w.YieldMax)
+	}
 	wal.DefaultFactoryOptions.SegmentSize = 32 * 1024 // dozens of shard replicas are created per run
 	h := &cfgHarness{r: r, w: w, g: g, prop: prop, labels: map[string]map[string]string{}, idsSeen: map[int64]string{}, termOf: map[int64]int64{}, gaveUp: map[string]bool{}, termSent: map[int64]int64{}, idsGone: map[int64]bool{},
 		maxID: -1, nsEpoch: map[string]int{}, published: map[string][]hashRng{}}
@@ -778,7 +786,13 @@ func runConfigHistory(r *Run, prop string) {
 				time.Sleep(12 * time.Second)
 				h.checkClients(fmt.Sprintf("after step %d", i))
 			}
-			time.Sleep(time.Duration(gi.Range(50, 6000)) * time.Millisecond)
+			gap := gi.Range(50, 6000)
+			if gi.Chance(30) {
+				// the next change arrives while the elections and swaps started by this one are still running
+				gap = gi.Range(0, 150)
+				r.Count("config_changes_back_to_back", 1)
+			}
+			time.Sleep(time.Duration(gap) * time.Millisecond)
 		}
 		if r.Failed() {
 			return
